@@ -131,8 +131,10 @@ var _ *openfgav1.RelationReference
 
 //@ func (*DirectAssignmentValidator).incr
 //@   inline
+//@   requires v != nil
 //@ func (*DirectAssignmentValidator).occurrences
 //@   inline
+//@   requires v != nil
 
 //@ func parseSubRelation
 //@   props C02 C01 C13
